@@ -14,7 +14,7 @@ G = 'cuqi.geometry._geometry'
 EXPLANATION = ("fun2par(par2fun(p)) == p, idempotence of projections, map(batch)[...,k] == map(batch[...,k]), reported shapes == produced shapes, "
                "Samples / CUQIarray conversions == per-sample maps and lossless, for symbolic parameter vectors and batches; StepExpansion index sets "
                "partition the grid (closed enumeration over grids / step counts / spacings).")
-ASSUMPTIONS = ["KL expansions (scipy DST pair) are checked by the numeric twin only (bounded, level B)",
+ASSUMPTIONS = ["scipy.fftpack dst/idst are used through the contract of the unnormalised pair: linear along the last axis with dst(idst(x)) == 2N x (matrices of symbolic constants S, R with R S = I as path hypothesis, used by the normaliser as product rewrite rules); the KL decay coefficients are floats, so the KL identities are polynomial identities up to coefficient tolerance (kind approx)",
                "StepExpansion grid/step-boundary comparisons are floating point: enumerated exhaustively over the stated grid family (closed computation), not proved for all grids"]
 
 
@@ -41,9 +41,18 @@ def make(kind):
 def _col(a, k): return a[..., k]
 
 
+class _Approx:
+    """context view whose equalities are polynomial identities up to coefficient tolerance (float-derived coefficients)"""
+    def __init__(self, c): self._c = c
+    def __getattr__(self, n): return getattr(self._c, n)
+    def eq(self, name, a, b, note='', tol=None, approx=True): return self._c.eq(name, a, b, note=note, tol=tol, approx=True)
+
+
 def roundtrip(c, kind, k):
     """k = 0: single vector; k >= 1: batch of k columns"""
     g = make(kind)
+    if kind.startswith('KL') and c.sym:
+        _eq = c.eq; c = _Approx(c)          # decay coefficients are floats: identities up to coefficient tolerance
     n = g.par_dim
     if k == 0:
         p = c.vec('p', n)
@@ -122,6 +131,7 @@ def step_partition_enumeration(c, maxN, maxsteps):
 def grid_history(c, kind):
     """the maps depend only on the current configuration: after the grid is replaced (other size) the round trip still holds"""
     g = make(kind)
+    if kind.startswith('KL') and c.sym: c = _Approx(c)
     n1 = g.par_dim
     p = c.vec('p', n1)
     c.eq('roundtrip_before', g.fun2par(g.par2fun(p)), p)
@@ -200,11 +210,11 @@ def jobs(tier):
     for kind in ('Step:mean:5:2', 'Step:max:6:3', 'Step:min:4:4'):
         J.append(Job(f'{kind}:grid_history', lambda c, kind=kind: grid_history(c, kind), 'Pbox', fn['Step'], maxpaths=4096))
     for kind in ('KL:6:3', 'KL:8:4'):
-        J.append(Job(f'{kind}:grid_history', lambda c, kind=kind: grid_history(c, kind), 'B', fn['KL'], rtol=1e-6, atol=1e-9))
+        J.append(Job(f'{kind}:grid_history', lambda c, kind=kind: grid_history(c, kind), 'Pbox', fn['KL'], rtol=1e-6, atol=1e-9, timeout=900))
     for N, ns in ((4, 2), (5, 2), (7, 3), (6, 6)) + (() if q else ((9, 4), (10, 3), (12, 5))):
         J.append(Job(f'StepExpansion:node_assignment:N={N}:steps={ns}', lambda c, N=N, ns=ns: step_assignment(c, N, ns), 'Pbox', fn['Step']))
     J.append(Job('StepExpansion:partition:closed_enumeration', lambda c: step_partition_enumeration(c, 24 if q else 40, 8), 'B', fn['Step'], nnum=1))
     for kind in ('KL:6:3', 'KL:8:8') + (() if q else ('KL:16:5',)):
         for k in (0, 2):
-            J.append(Job(f'{kind}:roundtrip_and_columnwise:batch={k}', lambda c, kind=kind, k=k: roundtrip(c, kind, k), 'B', fn['KL'], rtol=1e-6, atol=1e-9))
+            J.append(Job(f'{kind}:roundtrip_and_columnwise:batch={k}', lambda c, kind=kind, k=k: roundtrip(c, kind, k), 'Pbox', fn['KL'], rtol=1e-6, atol=1e-9, timeout=900))
     return J
